@@ -3719,10 +3719,16 @@ class Graph(_protocols.GraphProtocol, Sequence[Node], _display.PrettyPrintable):
         return reversed(self._nodes)
 
     def _set_input_and_initializer_value_names_into_name_authority(self):
-        for value in self.inputs:
-            self._name_authority.register_or_name_value(value)
+        # Register the names that are already given before generating any, so that
+        # the name generated for an unnamed input cannot equal that of an initializer
         for value in self.initializers.values():
             self._name_authority.register_or_name_value(value)
+        for value in self.inputs:
+            if value.name is not None:
+                self._name_authority.register_or_name_value(value)
+        for value in self.inputs:
+            if value.name is None:
+                self._name_authority.register_or_name_value(value)
 
     def _check_node_can_be_added(self, node: Node) -> None:
         """Raise if the node cannot be added to this graph. Does not modify anything."""
